@@ -200,14 +200,14 @@ def worker(task, col):
     M.Tap(DSG, 'set_des_var_value', counter=col.count)
     if task.get('replay'):
         v = task['replay']['violation']
-        check_case(v['spec'], col, 'replay', ['replay'])
+        common.guard(col, check_case, v['spec'], col, 'replay', ['replay'])
         return
     if task['shard'] == 0:
         for c in common.corpus('C16'):
-            check_case(c['spec'], col, 'corpus', ['corpus', c['file']])
+            common.guard(col, check_case, c['spec'], col, 'corpus', ['corpus', c['file']])
     for i in range(task['lo'], task['hi']):
         name, sp = case_spec(task['seed'], i)
-        check_case(sp, col, name, ['C16', task['seed'], i])
+        common.guard(col, check_case, sp, col, name, ['C16', task['seed'], i])
 
 
 def main(run):
